@@ -181,7 +181,7 @@ func HarnessC03TwoSenders(a []int) {
 	}
 	var acked []uint8
 	var forwarded []cemi.Message // what the gateway put on the bus (first acceptance of each number)
-	go func() { // gateway
+	go func() {                  // gateway
 		verifDaemon()
 		expect := s
 		for f := range frames {
